@@ -3,7 +3,7 @@
 proof stage    : Props/C07.v (drift: sqrt_one, dz, straight line, flow, closed form, Jacobian entries; TDC at V=0;
                  quadrupole: transverse block = linear map, exact flow incl. z, num_steps independence, on-axis = drift,
                  offset round trip, R56; dipole: fringe kicks = edge matrices, body = exact motion in a uniform field (one circle of radius
-                 px_norm/g, closed-form sector map, arc length), closed design orbit, c1 = c2, Jacobian of the sector map)
+                 px_norm/g, closed-form sector map, arc length), Jacobian rows x', px' at the design orbit, flow law, closed design orbit, c1 = c2)
 correspondence : Drift(tracking_method="bmadx").track on 1-3 paraxial particles (|delta| <= 0.05) vs the Coq model
                  drift_bmadx_track via `interval` (x, y, tau of every particle, returned energy);
                  Quadrupole(tracking_method="bmadx").track (k1 of both signs and 0, tilt, misalignment, num_steps 1/2/5,
@@ -303,7 +303,7 @@ def gen_bcase(rng, k):
           "tilt": rng.choice([0.0, round(rng.uniform(-0.8, 0.8), 3), math.pi / 2]),
           "gap": gap, "gap_exit": gap if same else round(rng.uniform(0.0, 0.05), 3),
           "fringe_integral": fi, "fringe_integral_exit": fi if same else round(rng.uniform(0, 0.7), 2),
-          "fringe_at": ["both", "both", "entrance", "exit", "neither", "both"][(k // 4) % 6]}
+          "fringe_at": ["both", "entrance", "exit", "neither"][(k + k // 4) % 4]}
     E0 = gen_energy(rng) if k % 3 else round(10 ** rng.uniform(6.3, 7.5), -3)
     parts = []
     for _ in range(rng.randint(1, 2)):
@@ -667,8 +667,8 @@ def main(tier, replay=None):
     run.cov["tested_only"] = ["Quadrupole Bmad-X with the coded eps = 2^-52: flow law / num_steps independence (1e-10) and full 6x6 Jacobian = transfer_map (1e-9) on the "
                               "implementation (Coq proves them for eps := 0, the transverse block, R56 and the determinant defect eps*sx^2 of the coded block)",
                               "Dipole Bmad-X: full 6x6 Jacobian of fringe + body + tilt = transfer_map (autograd, 1e-9) and two pieces = whole (1e-10) on the implementation "
-                              "(Coq proves the fringe matrices, the exact uniform-field geometry of the body, the closed design orbit and c1 = c2; the body's "
-                              "Jacobian and the flow law are consequences not spelled out as Coq theorems)",
+                              "(Coq proves the fringe matrices, the exact uniform-field geometry of the body, its Jacobian rows x', px' at the design orbit, the flow law of "
+                              "the body in six coordinates, the closed design orbit and c1 = c2; not the y'/z' rows of the Jacobian nor the element with fringes and tilt)",
                               "Dipole body vs an independent 40-digit uniform-field computation (1e-11) on the implementation",
                               "full 6x6 autograd Jacobian of Drift(bmadx) vs transfer_map (Coq proves the two non-trivial entries)",
                               "TDC(V=0) vs Drift(bmadx) on the implementation (Coq proves it for the model of the kick)"]
